@@ -92,6 +92,7 @@ class StreamSpec:
         self.started = 0  # the producer function was entered (the source is in use)
         self.finished = False  # ... and returned normally
         self.abort_calls = 0  # how often the queue ran its abort callback
+        self.close_started = 0  # ... and how often the (slow) closing it returned began to run
         self.item_work = {}  # index -> WorkSpec
         self.label = f"S{sid}"
         self.obj = None
@@ -134,6 +135,31 @@ class GraphSpec:
             ss.src_wait = tuple(i > ss.fail_after and bool(t.draw(3, "w2_m_wait"))
                                 for i in range(ss.n_items))
             ss.slow_close = t.draw(4, "w2_m_sclose") == 0
+            self.initial.streams.append(ss)
+            self.all_streams.append(ss)
+        self.nestclose_motif = tape.draw(4, "w2_nestclose_motif") == 0
+        if self.nestclose_motif:
+            # motif: a stream whose (asynchronous) items each carry a nested stream with a slow
+            # abort callback - what a producer holds, and has to abort, when it is cancelled
+            # in the middle of an item
+            t = tape
+            self.nstream += 1
+            ss = StreamSpec(self.nstream, (f"s{self.nstream}",))
+            ss.n_items = 2 + t.draw(3, "w2_n_items")
+            ss.item_async = (True,) * ss.n_items
+            ss.slow_close = t.draw(2, "w2_n_sclose") == 0
+            for i in range(ss.n_items):
+                ws = self.item_work(ss, i, 1)
+                if not ws.streams:
+                    self.nstream += 1
+                    ns = StreamSpec(self.nstream, ss.path[:-1] + (f"s{self.nstream}",))
+                    ns.n_items = t.draw(3, "w2_n_initems")
+                    ns.item_async = tuple(bool(t.draw(2, "w2_n_iasync")) for _ in range(ns.n_items))
+                    ws.streams.append(ns)
+                    self.all_streams.append(ns)
+                for ns in ws.streams:
+                    ns.slow_close = True
+                ss.item_work[i] = ws
             self.initial.streams.append(ss)
             self.all_streams.append(ss)
 
@@ -266,12 +292,13 @@ class GraphSpec:
             ts.delivery = "ext" if t.draw(8, "w2_itasync") < self.async_num else "sync"
             ws.tasks.append(ts)
             self.all_tasks.append(ts)
-        if level < 2 and t.draw(4, "w2_ins") == 3:
+        if level < 2 and t.draw(3, "w2_ins") == 2:
             self.nstream += 1
             ns = StreamSpec(self.nstream, self.ext_path(ss.path[:-1], 1) + (f"s{self.nstream}",))
             ns.n_items = t.draw(4, "w2_initems")
             ns.item_async = tuple(t.draw(8, "w2_iiasync") < self.async_num
                                   for _ in range(ns.n_items))
+            ns.slow_close = t.draw(2, "w2_insclose") == 0
             ws.streams.append(ns)
             self.all_streams.append(ns)
         return ws
@@ -398,6 +425,7 @@ class World2:
         self.pushed = set()  # (stream id, item index) whose push() returned
         self.slow_cancels = 0
         self.pushed_behind_failure = 0  # items handed to a queue behind a failing item
+        self.nested_aborts_by_producer = 0  # cancelled producers that had to abort nested work
 
     def build(self, ws):
         groups = []
@@ -455,10 +483,12 @@ class World2:
             self.sim.log("stream-abort-callback", s.sid)
             if not s.slow_close:
                 return None
-            ext = self.sim.external(f"sclose:{s.sid}", "aclose", ("value", None))
 
             async def close():
-                await ext.fut
+                # (the external exists once the closing has begun: a close coroutine that is
+                # dropped or cancelled before its first step never closes the source)
+                s.close_started += 1
+                await self.sim.external(f"sclose:{s.sid}", "aclose", ("value", None)).fut
 
             return close()
 
@@ -474,6 +504,27 @@ class World2:
             except asyncio.CancelledError:
                 self.slow_cancels += 1
                 await self.sim.external(f"sitemc:{s.sid}:{i}", "cleanup", ("value", None)).fut
+                raise
+
+        async def held_item(ext, work):
+            # like IncrementalExecutor.complete_stream_item: the producer completes the item
+            # itself (no early execution) and, when it fails or is cancelled meanwhile, aborts
+            # the work nested in the item before passing the failure on
+            try:
+                return await ext.fut
+            except (Exception, asyncio.CancelledError):
+                aw = []
+                for task in (work.tasks if work else ()):
+                    r = task.computation.abort()
+                    if r is not None and hasattr(r, "__await__"):
+                        aw.append(r)
+                for stream in (work.streams if work else ()):
+                    r = stream.queue.abort()
+                    if r is not None and hasattr(r, "__await__"):
+                        aw.append(r)
+                if aw:
+                    self.nested_aborts_by_producer += 1
+                    await asyncio.gather(*aw, return_exceptions=True)
                 raise
 
         async def produce(queue):
@@ -503,7 +554,7 @@ class World2:
                         if self.early:
                             await queue.push(ext.fut)
                         else:
-                            await queue.push(await ext.fut)
+                            await queue.push(await held_item(ext, work))
                 else:
                     await queue.push(result)
                 self.pushed.add((s.sid, i))
